@@ -16,15 +16,30 @@ abbrev Equiv {β : Type} [Inhabited β] := @Proofs.Equiv β _
 
 -- `vec` (a 1-D int64 tensor) is defined, unchanged, in Gonnx/Proofs/Index.lean (namespace Gonnx.C08)
 
+-- concrete tensors shared by the non-vacuity examples below
+private def nv_t : Tensor Nat := ⟨[2, 3, 2], List.range 12⟩
+private def nv_m : Tensor Nat := ⟨[3, 4], List.range 12⟩
+private def nv_a : Tensor Nat := ⟨[2, 3], [1, 2, 3, 4, 5, 6]⟩
+private def nv_b : Tensor Nat := ⟨[2, 2], [7, 8, 9, 10]⟩
+
 /-- **Transpose**: for every permutation the operator returns the ONNX result -/
 theorem transpose_eq_spec (t : Tensor α) (perm : List Int) (hp : Spec.isPerm t.shape.length perm = true) :
     ∃ s, Spec.transpose t perm = some s ∧ transposeOp t perm = .ok s :=
   Proofs.Index.transpose_eq_spec t perm hp
 
+-- non-vacuity: a 2×3×2 tensor, the cyclic permutation (2, 0, 1)
+example : ∃ s, Spec.transpose nv_t [2, 0, 1] = some s ∧ transposeOp nv_t [2, 0, 1] = .ok s :=
+  transpose_eq_spec nv_t [2, 0, 1] (by decide)
+example : transposeOp nv_t [2, 0, 1] = .ok ⟨[2, 2, 3], [0, 2, 4, 6, 8, 10, 1, 3, 5, 7, 9, 11]⟩ := by decide
+
 /-- a pattern of the wrong length is refused -/
 theorem transpose_wrong_length (t : Tensor α) (perm : List Int) (h : perm.length ≠ t.shape.length) :
     transposeOp t perm = .error .gorgonia ∧ Spec.transpose t perm = none :=
   Proofs.Index.transpose_wrong_length t perm h
+
+-- non-vacuity: a pattern of length 2 for a rank-3 tensor
+example : transposeOp nv_t [1, 0] = .error .gorgonia ∧ Spec.transpose nv_t [1, 0] = none :=
+  transpose_wrong_length nv_t [1, 0] (by decide)
 
 /-- **Gather**: along any axis, index tensors of any rank, negative indices: the ONNX formula;
 out-of-range axis or index: the axis error -/
@@ -36,6 +51,10 @@ theorem gather_error (data : Tensor α) (indices : Tensor Int) (axis : Int)
     (h : Spec.gather data indices axis = none) : gatherOp data indices axis = .error .axis :=
   Proofs.Index.gather_error data indices axis h
 
+-- non-vacuity: index 3 on an axis of extent 3
+example : gatherOp nv_t ⟨[2], [0, 3]⟩ 1 = .error .axis :=
+  gather_error nv_t ⟨[2], [0, 3]⟩ 1 (by decide)
+
 -- `hW` is part of the fixed statement; the result is tabulated (`ofFn`), hence dense, whatever the input
 set_option linter.unusedVariables false in
 /-- **Concat** of two or more inputs along any valid (possibly negative) axis -/
@@ -44,10 +63,18 @@ theorem concat_eq_spec (axis : Int) (ts : List (Tensor α)) (hn : 2 ≤ ts.lengt
     ∃ m, concatOp axis ts = .ok m ∧ Equiv m s :=
   Proofs.Index.concat_eq_spec axis ts hn s hs
 
+-- non-vacuity: 2×3 and 2×2 along axis -1
+example : ∃ m, concatOp (-1) [nv_a, nv_b] = .ok m ∧ Equiv m ⟨[2, 5], [1, 2, 3, 7, 8, 4, 5, 6, 9, 10]⟩ :=
+  concat_eq_spec (-1) [nv_a, nv_b] (by decide) (by intro t ht; simp at ht; rcases ht with rfl | rfl <;> rfl) _ (by decide)
+
 /-- an invalid request with two or more inputs never yields a tensor -/
 theorem concat_refuses (axis : Int) (ts : List (Tensor α)) (hn : 2 ≤ ts.length)
     (hs : Spec.concat axis ts = none) : ∀ m, concatOp axis ts ≠ .ok m :=
   Proofs.Index.concat_refuses axis ts hn hs
+
+-- non-vacuity: 2×3 and 2×2 along axis 0 (they differ off the axis)
+example : ∀ m, concatOp 0 [nv_a, nv_b] ≠ .ok m :=
+  concat_refuses 0 [nv_a, nv_b] (by decide) (by decide)
 
 /-- a single input is returned as is (for a valid axis this is the ONNX result) -/
 theorem concat_single (axis : Int) (t : Tensor α) : concatOp axis [t] = .ok t := rfl
@@ -59,6 +86,11 @@ theorem expand_partial (t : Tensor α) (target : List Nat) (hpos : Pos t.shape) 
     (hs : Spec.expand t target = some s) :
     ∃ m, expandOp t (target.map fun (d : Nat) => (d : Int)) = .ok m ∧ Equiv m s :=
   Proofs.Index.expand_partial t target hpos htpos hW hlen s hs
+
+-- non-vacuity: a 2×1 column expanded to 3×2×2 (one axis added, one stretched)
+example : ∃ m, expandOp (⟨[2, 1], [5, 6]⟩ : Tensor Nat) ([3, 2, 2].map fun (d : Nat) => (d : Int)) = .ok m ∧
+      Equiv m ⟨[3, 2, 2], [5, 5, 6, 6, 5, 5, 6, 6, 5, 5, 6, 6]⟩ :=
+  expand_partial ⟨[2, 1], [5, 6]⟩ [3, 2, 2] (by simp [Proofs.Pos]) (by simp [Proofs.Pos]) rfl (by decide) _ (by decide)
 
 /-- the clause "an incompatible target is refused" is false: it is computed (known finding) -/
 theorem expand_counterexample_incompatible :
@@ -83,6 +115,15 @@ theorem slice_one_axis_partial (t : Tensor α) (ax : Nat) (start stop step : Int
     (hax0 : ax = 0 → ((if stop > dim t.shape 0 then (dim t.shape 0 : Int) else stop) - start) % step = 0) :
     ∃ m, sliceOp t [start] [stop] (some [(ax : Int)]) (some [step]) = .ok m ∧ Equiv m s :=
   Proofs.Index.slice_one_axis t ax start stop step hpos hax hs0 hsd hse hst s hs hext hax0
+
+-- non-vacuity: a 3×4 tensor, axis 1, 1:9:2 (end clamped) …
+example : ∃ m, sliceOp nv_m [1] [9] (some [((1 : Nat) : Int)]) (some [2]) = .ok m ∧ Equiv m ⟨[3, 2], [1, 3, 5, 7, 9, 11]⟩ :=
+  slice_one_axis_partial nv_m 1 1 9 2 rfl (by simp [Proofs.Pos, nv_m]) (by decide) (by decide) (by decide) (by decide) (by decide)
+    _ (by decide) (by decide) (by decide)
+-- … and a 4×3 tensor, axis 0, 0:9:2 (the step divides the clamped extent: `hax0` is not vacuous here)
+example : ∃ m, sliceOp (⟨[4, 3], List.range 12⟩ : Tensor Nat) [0] [9] (some [((0 : Nat) : Int)]) (some [2]) = .ok m ∧ Equiv m ⟨[2, 3], [0, 1, 2, 6, 7, 8]⟩ :=
+  slice_one_axis_partial ⟨[4, 3], List.range 12⟩ 0 0 9 2 rfl (by simp [Proofs.Pos]) (by decide) (by decide) (by decide) (by decide) (by decide)
+    _ (by decide) (by decide) (by decide)
 
 /-- the unguarded clause "every sliced axis is kept even when its extent becomes 1" is false -/
 theorem slice_counterexample_extent1 :
